@@ -45,6 +45,7 @@ type nodeStore struct {
 	failDriverIn               int // FirstIndex / LastIndex / GetLog issued by the driver (transparency probes)
 	firedStore, firedDelete    int
 	firedVRead, firedDriver    int
+	vNotFound                  int // ErrLogNotFound answers given to the verifier goroutine
 }
 
 // errInjected is what an injected inner-store (or IsCheckpointFn) fault returns.
@@ -110,6 +111,9 @@ func (s *nodeStore) GetLog(i uint64, l *raft.Log) error {
 		return err
 	}
 	err := s.inner.GetLog(i, l)
+	if err != nil && s.byVerifier() && errors.Is(err, raft.ErrLogNotFound) {
+		s.vNotFound++ // the store told a verification that it lacks an entry of its range
+	}
 	if err == nil && s.restIdx == i && s.restMut != nil {
 		s.restMut(l)
 		if t := s.sim.Current(); t != nil && t.Name == "verifier" {
@@ -167,6 +171,8 @@ type cnode struct {
 	snapIdx, snapTerm uint64 // last entry removed by this node's own head truncation ("snapshot")
 	cpFailIn, cpFired int    // IsCheckpointFn error fault (k-th call from now), faults fired
 	vfailSeen         int    // verifier read faults already attributed to a report
+	vnfSeen           int    // not-found answers already attributed to a report
+	queuedStart       []uint64 // Range.Start of the reports queued and not yet delivered (parallel to queued)
 }
 
 // dropRec: a checkpoint whose report was dropped, with its place in the order
@@ -208,6 +214,9 @@ type cluster struct {
 	// what is decided is C18's accounting: one report or one counted drop per
 	// checkpoint, SkippedRange, transparency, no blocking.
 	noQuiet bool
+	// racyHead (half of the C16 / C17 runs): head compaction does not wait for the
+	// verifier either, but stays strictly below every queued / running range
+	racyHead bool
 
 	inStore bool   // the driver is inside a StoreLogs call of the middleware
 	trig    []byte // 'S' / 'D' per triggerVerify of that call: queued / dropped
@@ -270,7 +279,8 @@ func sameLog(a, b *raft.Log) bool {
 func (c *cluster) newVerifier(n *cnode) {
 	n.gen++
 	n.triggered, n.delivered, n.lastEnd, n.dropped, n.contiguous, n.mismatches = 0, 0, 0, nil, false, 0
-	n.trigSeq, n.queued = 0, nil
+	n.trigSeq, n.queued, n.queuedStart = 0, nil, nil
+	n.vnfSeen = n.wrap.vNotFound
 	n.mc = metrics.NewAtomicCollector(verifier.MetricDefinitions)
 	node := n
 	gen := n.gen
@@ -336,11 +346,30 @@ func (c *cluster) onReport(n *cnode, gen int, r verifier.VerificationReport) {
 		cp = c.cps[r.Range.End][len(c.cps[r.Range.End])-1]
 	}
 	c.logf("report n%d range=%s expected=%x written=%x read=%x skipped=%v err=%v", n.id, r.Range, r.ExpectedSum, r.WrittenSum, r.ReadSum, r.SkippedRange, r.Err)
+	lacked := n.wrap.vNotFound > n.vnfSeen
+	n.vnfSeen = n.wrap.vNotFound
+	if lacked {
+		// during this verification the store answered "not found" for an index of
+		// the range: the node lacked part of it, whatever happened before or after.
+		// That is never corruption (C16's last sentence), also when the range was
+		// cut by a truncation while the report was waiting in the queue.
+		c.probes.Add("reports_range_lacked_at_read", 1)
+		var mmm verifier.ErrChecksumMismatch
+		if errors.As(r.Err, &mmm) {
+			c.violate("no-false-alarm", "lacking-range-reported-as-corruption", "node %d: the store returned not-found for an entry of %s while it was verified, yet the report says: %v", n.id, r.Range, r.Err)
+			return
+		}
+	}
 	if c.noQuiet {
 		c.skippedRangeOracle(n, r)
 		n.lastEnd = r.Range.End
 		n.vfailSeen = n.wrap.firedVRead
 		return
+	}
+	if lacked {
+		c.skippedRangeOracle(n, r)
+		n.lastEnd = r.Range.End
+		return // (only reachable in racy-compaction runs; nothing else to judge)
 	}
 	if cp == nil {
 		c.violate("report-wellformed", "report-for-unknown-checkpoint", "node %d delivered a report for range %s, no checkpoint ends there", n.id, r.Range)
@@ -448,6 +477,7 @@ func (c *cluster) skippedRangeOracle(n *cnode, r verifier.VerificationReport) bo
 	if len(n.queued) > 0 {
 		rseq = n.queued[0]
 		n.queued = n.queued[1:]
+		n.queuedStart = n.queuedStart[1:]
 	}
 	var pend []verifier.LogRange
 	var keep []dropRec
@@ -669,6 +699,11 @@ func (c *cluster) storeViaF(n *cnode, batch []*raft.Log) (error, bool) {
 			n.trigSeq++
 			if trig[i] == 'S' {
 				n.queued = append(n.queued, n.trigSeq)
+				st := l.Index
+				if len(l.Extensions) >= 24 {
+					st = binary.LittleEndian.Uint64(l.Extensions[8:16])
+				}
+				n.queuedStart = append(n.queuedStart, st)
 			} else if len(l.Extensions) >= 24 {
 				st := binary.LittleEndian.Uint64(l.Extensions[8:16])
 				n.dropped = append(n.dropped, dropRec{seq: n.trigSeq, rng: verifier.LogRange{Start: st, End: l.Index}})
@@ -1021,11 +1056,30 @@ func (c *cluster) headTruncate(n *cnode) {
 	if n.mem.last == 0 || n.mem.last-n.mem.first < 2 {
 		return
 	}
-	if !c.noQuiet {
+	racy := c.racyHead && len(n.queuedStart) > 0
+	if !c.noQuiet && !racy {
 		c.waitQuiet(n)
 	}
 	// only committed entries are ever compacted away
 	ci := c.commitIndex()
+	if racy {
+		// compaction while reports are queued or being verified, kept strictly
+		// below every such range: the ranges themselves are not modified, so all
+		// judgements stay valid
+		lowest := n.queuedStart[0]
+		for _, st := range n.queuedStart {
+			if st < lowest {
+				lowest = st
+			}
+		}
+		if lowest <= n.mem.first+1 {
+			return
+		}
+		if ci > lowest-1 {
+			ci = lowest - 1
+		}
+		c.probes.Add("compaction_below_pending_range", 1)
+	}
 	if e := n.mem.m[ci]; ci < n.mem.first || e == nil || c.nodes[c.leader].mem.m[ci] == nil || e.Term != c.nodes[c.leader].mem.m[ci].Term {
 		return
 	}
@@ -1152,7 +1206,8 @@ func (c *cluster) run(cfg Config) {
 	c.leader = c.tp.Choose(nn)
 	// a third of the runs inject errors of the inner store / IsCheckpointFn
 	c.errRun = c.tp.Choose(3) == 0
-	c.noQuiet = c.mode == "C18" && c.tp.Choose(2) == 0
+	c.noQuiet = (c.mode == "C18" || c.mode == "C16") && c.tp.Choose(2) == 0
+	c.racyHead = !c.noQuiet && c.mode != "C18" && c.tp.Choose(2) == 0
 	nchoices := 14
 	if c.errRun {
 		nchoices = 16
